@@ -245,10 +245,11 @@ def _finish_path(h, E, st, kind, sig, err, tb, validate_every, npaths):
         if conc is not None and conc['kind'] == 'exc' and conc['sig'] == err.split(':')[0]:
             st['cex'].append({'harness': h.name, 'label': 'unexpected-exception:' + conc['sig'], 'values': jsonable(values),
                               'detail': err})
-        elif conc is not None and _concrete_failure(conc):
+        elif conc is not None and _concrete_failure(conc) and _escalate(h, E, st, conc, values, 'symbolic run raised %s; concrete replay of the path\'s model'
+                                                                        % err.split(':')[0]):
             # the shadow values could not follow the code here, but the replay of the same inputs on the real code (no modelling involved)
             # fails an obligation or lets an unanticipated exception escape: that is a reproduced violation
-            _concrete_cex(h, st, conc, values, 'symbolic run raised %s; concrete replay of the path\'s model' % err.split(':')[0])
+            pass
         else:
             # raised only under symbolic execution (a numpy/C routine the shadow values cannot enter, or an interrupted solver call
             # surfacing as an exception inside repository code that catches Exception): the path is inconclusive, not a verdict
@@ -283,12 +284,11 @@ def _finish_path(h, E, st, kind, sig, err, tb, validate_every, npaths):
             conc2 = run_concrete(h, v2) if v2 is not None else None
             if conc2 is not None and conc2['kind'] == 'ret' and _sigkey(conc2['sig']) == _sigkey(sig) and not conc2['failed']:
                 st['validated'] += 1
-            elif _concrete_failure(conc) and (conc2 is None or _concrete_failure(conc2)):
+            elif _concrete_failure(conc) and _escalate(h, E, st, conc, values, 'witness run of a path whose symbolic obligations were all discharged'):
                 # the witness run of this path on the real code fails an obligation (or raises) although the symbolic run discharged everything:
-                # an encoding gap in the shadow values, but the concrete failure itself is real and reproduced (dyadic re-draw fails too)
+                # an encoding gap in the shadow values, but the concrete failure itself is real and reproduced
                 st['val_mismatch'].append({'harness': h.name, 'values': jsonable(values), 'symbolic': jsonable(sig), 'concrete': jsonable(conc.get('sig')),
                                            'kind': conc['kind'], 'failed': conc['failed'], 'tb': conc.get('tb')})
-                _concrete_cex(h, st, conc, values, 'witness run of a path whose symbolic obligations were all discharged')
             else:
                 st['val_mismatch'].append({'harness': h.name, 'values': jsonable(values), 'symbolic': jsonable(sig),
                                            'concrete': jsonable(conc.get('sig')), 'kind': conc['kind'],
@@ -305,6 +305,28 @@ def _concrete_cex(h, st, conc, values, how):
         if any(c['label'] == label for c in st['cex']):
             continue
         st['cex'].append({'harness': h.name, 'label': label, 'values': jsonable(values), 'detail': 'concrete run only (%s)%s' % (how, (': ' + conc['tb'][-300:]) if conc.get('tb') else '')})
+
+
+def _escalate(h, E, st, conc, values, how):
+    """A replay of a path's model on the real code failed.  A foreign exception is a fact about the real code.  A failed obligation could also be
+    an artefact of the 1e-9 slack of the concrete comparisons when the model sits within that slack of a decision boundary (models may contain
+    values like 1e-17): it counts only if a re-draw of the model on a coarse dyadic grid (k/8, k/1024), where no such coincidence is possible,
+    fails as well - and that re-draw is what gets reported."""
+    if conc['kind'] == 'exc':
+        _concrete_cex(h, st, conc, values, how)
+        return True
+    for denom in (8, 1024):
+        try:
+            v2 = E.dyadic_model_values(denom=denom)
+        except Exception:   # noqa
+            v2 = None
+        if v2 is None:
+            continue
+        c2 = run_concrete(h, v2)
+        if c2['kind'] == 'ret' and c2['failed']:
+            _concrete_cex(h, st, c2, v2, how + '; dyadic re-draw')
+            return True
+    return False
 
 
 def _confirm(h, E, st, label, vals):
